@@ -1038,7 +1038,7 @@ def shards(tier, seed):
                 for kind in KINDS:
                     out.append(('X', n, si, (at, kind), len(x_linksets(n, tier)) * 6))
     # tiny trees first (their witnesses are the minimal ones and are retained first), then big shards first
-    out.sort(key=lambda s: (s[1] > 2, -s[4]))
+    out.sort(key=lambda s: (s[1] > 2, s[0] != 'L', -s[1]) if s[1] <= 2 else (True, False, -s[4]))
     return [s[:4] for s in out]
 
 
